@@ -522,3 +522,53 @@ Example finding_backup_over_rejects :
   | _ => False
   end.
 Proof. vm_compute. repeat split; try reflexivity. - right. left. reflexivity. - right. right. left. reflexivity. Qed.
+
+(* ===== merged from Properties_Sections_Other.v (status wiring) ===== *)
+From PatchV Require Import Base Lines Hunk Locator Formatter Options Applier LineParser Parser World Driver
+     Proofs_Base Proofs_Lines Proofs_Fuel Proofs_Unified Proofs_Filler Proofs_Progress Proofs_Sections Proofs_Sections_Unified
+     Proofs_Names Proofs_CtxLines Proofs_CtxMerge Proofs_Context Spec_Normal Proofs_Normal
+     Proofs_ArithParse Proofs_ArithHeader Proofs_Status Proofs_StatusDriver Proofs_Whole Proofs_Sections_Other.
+
+(* ---------------------------------------------------------------------------------------------------------------
+   C04
+   --------------------------------------------------------------------------------------------------------------- *)
+(* a hunk whose counts are the numbers of lines of its sides (what every body parser builds: Proofs_ArithParse) can be written
+   in context form *)
+Theorem parsed_hunks_ctx_writable : forall h, good_hunk h -> ctx_writable h.
+Proof. exact Proofs_Sections_Other.parsed_hunks_ctx_writable. Qed.
+Print Assumptions parsed_hunks_ctx_writable.
+
+Theorem parse_patch_ctx_writable : forall b f strip p, parse_patch b f strip = Ok p -> Forall ctx_writable (hunks p).
+Proof. exact Proofs_Sections_Other.parse_patch_ctx_writable. Qed.
+Print Assumptions parse_patch_ctx_writable.
+
+Theorem parse_patch_counts_ok : forall b f strip p, parse_patch b f strip = Ok p -> Forall hunk_counts_ok (hunks p).
+Proof. exact Proofs_Sections_Other.parse_patch_counts_ok. Qed.
+Print Assumptions parse_patch_counts_ok.
+
+Theorem parse_body_counts_ok : forall p s p' s',
+  Forall good_hunk (hunks p) -> parse_patch_body p s = Ok (p', s') ->
+  Forall hunk_counts_ok (hunks p') /\ Forall ctx_writable (hunks p').
+Proof. exact Proofs_Sections_Other.parse_body_counts_ok. Qed.
+Print Assumptions parse_body_counts_ok.
+
+(* any parsed patch, any options, any target lines: apply_patch ends normally unless the question has to be asked *)
+Theorem parsed_never_fatal : forall o lines b f strip p,
+  parse_patch b f strip = Ok p -> ~ question_needed o lines p -> exists r, apply_patch o lines p = Ok r.
+Proof. exact Proofs_Sections_Other.parsed_never_fatal. Qed.
+Print Assumptions parsed_never_fatal.
+
+Theorem any_section_hunk_failure_never_fatal : forall o st should p s w e w',
+  Forall good_hunk (hunks p) ->
+  process_section o st should p s w = (Throw e, w') ->
+  exists c, benign_cause o c /\ explains o c e w'.
+Proof. exact Proofs_Sections_Other.any_section_hunk_failure_never_fatal. Qed.
+Print Assumptions any_section_hunk_failure_never_fatal.
+
+(* no hypothesis on the options or on the format *)
+Theorem any_run_hunk_failure_never_fatal : forall o stdin w e w',
+  (let! b := patch_file_bytes o stdin in process_patch o b) w = (Throw e, w') ->
+  exists c, benign_cause o c /\ explains o c e w'.
+Proof. exact Proofs_Sections_Other.any_run_hunk_failure_never_fatal. Qed.
+Print Assumptions any_run_hunk_failure_never_fatal.
+
